@@ -60,11 +60,57 @@ theorem binaryPacket_length (payload : Bytes) :
 
 /-! ### inversion of a successful parse -/
 
+theorem parseRaw_nat_ok (k : Nat) (rest : Bytes) (h : k ≤ rest.length) :
+    parseRaw (k : Int) rest = .ok (rest.take k, k) := by
+  unfold parseRaw
+  have h1 : ¬ ((k : Int) < 0) := by omega
+  have h2 : ¬ (rest.length < k) := by omega
+  simp [h1, h2]
+
+theorem parseNum_val {bo : ByteOrder} {k : Nat} {b : Bytes} {v n : Nat} (h : parseNum bo k b = .ok (v, n)) :
+    v = decNat bo (b.take k) := by
+  unfold parseNum at h
+  split at h
+  · simp at h
+  · split at h
+    · simp at h
+    · simp at h; exact h.1.symm
+
+/-- the declared `packet_length` of a buffer -/
+def declaredLength (b : Bytes) : Nat := beVal (b.take 4)
+
+theorem parsePayload_ok_inv {α : Type} {m : Codec α} {payload : Bytes} {v : α}
+    (h : parsePayload m payload = .ok v) : ∃ k, m.parse payload = .ok (v, k) ∧ payload.length ≤ k := by
+  unfold parsePayload at h
+  split at h
+  · next v' k hk =>
+    split at h
+    · simp at h
+    · next hlen =>
+      simp at h; subst h
+      exact ⟨k, hk, by omega⟩
+  · simp at h
+  · simp at h
+  · next e _ _ hk => simp at h
+
+theorem parsePayload_noCrash {α : Type} {m : Codec α} (hm : NoCrash m) (payload : Bytes) (c : String) :
+    parsePayload m payload ≠ .error (.crash c) := by
+  unfold parsePayload
+  split
+  · split <;> simp
+  · simp
+  · simp
+  · next e h1 h2 hk =>
+    intro h; cases h
+    exact hm _ _ hk
+
+/-- a successful parse: header fields, the payload slice the header declares handed to the message
+parser, and `n = 4 + packet_length` -/
 theorem record_parse_ok_inv {α : Type} {m : Codec α} {bs : Bytes} {v : α} {n : Nat}
     (h : (recordCodec m).parse bs = .ok (v, n)) :
-    ∃ plen pad k, parseNum .network 4 bs = .ok (plen, 4) ∧ plen ≤ (bs.drop 4).length ∧
-      parseNum .network 1 (bs.drop 4) = .ok (pad, 1) ∧ m.parse (bs.drop 5) = .ok (v, k) ∧
-      pad ≤ (bs.drop (5 + k)).length ∧ n = 4 + 1 + k + pad := by
+    ∃ plen pad, parseNum .network 4 bs = .ok (plen, 4) ∧ plen ≤ (bs.drop 4).length ∧
+      parseNum .network 1 (bs.drop 4) = .ok (pad, 1) ∧ pad + 1 ≤ plen ∧
+      parsePayload m ((bs.drop 5).take (plen - pad - 1)) = .ok v ∧ n = 4 + plen := by
   simp only [recordCodec] at h
   cases h1 : parseNum .network 4 bs with
   | error e => simp [h1, bind, Except.bind] at h
@@ -83,36 +129,41 @@ theorem record_parse_ok_inv {α : Type} {m : Codec α} {bs : Bytes} {v : α} {n 
         have hn2 := (parseNum_ok_inv h2).1
         subst hn2
         simp only [h2, List.drop_drop] at h
-        cases h3 : m.parse (bs.drop (4 + 1)) with
-        | error e => simp [h3] at h
-        | ok r3 =>
-          obtain ⟨v', k⟩ := r3
-          simp only [h3] at h
-          cases h4 : parseRaw (pad : Int) (bs.drop (4 + 1 + k)) with
-          | error e => simp [h4] at h
-          | ok r4 =>
-            obtain ⟨pv, pn⟩ := r4
-            simp [h4, pure, Except.pure] at h
+        split at h
+        · simp at h
+        · next hpad =>
+          have hle : plen - pad - 1 ≤ (bs.drop (4 + 1)).length := by
+            simp only [List.length_drop] at hlen ⊢; omega
+          rw [parseRaw_nat_ok _ _ hle] at h
+          simp only [] at h
+          cases h3 : parsePayload m ((bs.drop (4 + 1)).take (plen - pad - 1)) with
+          | error e => simp [h3] at h
+          | ok v' =>
+            simp only [h3] at h
+            have hle2 : pad ≤ (bs.drop (4 + 1 + (plen - pad - 1))).length := by
+              simp only [List.length_drop] at hlen ⊢; omega
+            rw [parseRaw_nat_ok _ _ hle2] at h
+            simp only [pure, Except.pure, Except.ok.injEq, Prod.mk.injEq] at h
             obtain ⟨hv, hn⟩ := h
             subst hv
-            obtain ⟨_, hm, hm2, _⟩ := parseRaw_ok_inv h4
-            simp at hm hm2
-            refine ⟨plen, pad, k, rfl, by omega, rfl, rfl, ?_, hn.symm⟩
-            simp only [List.length_drop] at hm2 ⊢
-            omega
+            exact ⟨plen, pad, rfl, by omega, rfl, by omega, h3, by omega⟩
 
-theorem record_lenBound {α : Type} {m : Codec α} (hm : LenBound m) : LenBound (recordCodec m) := by
-  intro bs v n h
-  obtain ⟨plen, pad, k, h1, _, h2, h3, h4, hn⟩ := record_parse_ok_inv h
-  have := (parseNum_ok_inv h1).2.1
-  have h5 := (parseNum_ok_inv h2).2.1
-  have h6 := hm _ _ _ h3
-  simp only [List.length_drop] at h4 h5 h6
-  omega
+/-- the consumed length is `4 + packet_length`, for every message codec (true since the repair) -/
+theorem record_consumes_declared {α : Type} (m : Codec α) (bs : Bytes) (v : α) (n : Nat)
+    (h : (recordCodec m).parse bs = .ok (v, n)) : n = 4 + declaredLength bs ∧ n ≤ bs.length ∧ 5 ≤ n := by
+  obtain ⟨plen, pad, h1, hle, _, hpad, _, hn⟩ := record_parse_ok_inv h
+  have hv : plen = declaredLength bs := parseNum_val h1
+  have h4 := (parseNum_ok_inv h1).2.1
+  simp only [List.length_drop] at hle
+  subst hv
+  exact ⟨hn, by omega, by omega⟩
+
+theorem record_lenBound {α : Type} (m : Codec α) : LenBound (recordCodec m) :=
+  fun bs v n h => (record_consumes_declared m bs v n h).2.1
 
 theorem record_positive {α : Type} (m : Codec α) : Positive (recordCodec m) := by
   intro bs v n h
-  obtain ⟨plen, pad, k, _, _, _, _, _, hn⟩ := record_parse_ok_inv h
+  have := (record_consumes_declared m bs v n h).2.2
   omega
 
 theorem record_noCrash {α : Type} {m : Codec α} (hm : NoCrash m) : NoCrash (recordCodec m) := by
@@ -135,20 +186,49 @@ theorem record_noCrash {α : Type} {m : Codec α} (hm : NoCrash m) : NoCrash (re
       | ok r2 =>
         obtain ⟨pad, n2⟩ := r2
         simp only []
-        cases h3 : m.parse ((bs.drop 4).drop 1) with
-        | error e =>
-          intro h; cases h
-          exact hm _ _ h3
-        | ok r3 =>
-          obtain ⟨v', k⟩ := r3
-          simp only []
-          cases h4 : parseRaw (pad : Int) (((bs.drop 4).drop 1).drop k) with
+        split
+        · simp
+        · cases h3 : parseRaw ((plen - pad - 1 : Nat) : Int) ((bs.drop 4).drop 1) with
           | error e =>
             intro h; cases h
-            exact parseRaw_no_crash _ _ _ h4
-          | ok r4 => simp [pure, Except.pure]
+            exact parseRaw_no_crash _ _ _ h3
+          | ok r3 =>
+            obtain ⟨payload, k⟩ := r3
+            simp only []
+            cases h4 : parsePayload m payload with
+            | error e =>
+              intro h; cases h
+              exact parsePayload_noCrash hm _ _ h4
+            | ok v =>
+              simp only []
+              cases h5 : parseRaw (pad : Int) (((bs.drop 4).drop 1).drop k) with
+              | error e =>
+                intro h; cases h
+                exact parseRaw_no_crash _ _ _ h5
+              | ok r5 => simp [pure, Except.pure]
 
 /-! ### round trip, prefix rejection, self-delimitation -/
+
+/-- how the parser runs on a buffer whose header fields and payload slice are known -/
+theorem record_parse_of_parts {α : Type} {m : Codec α} (bs : Bytes) (plen pad : Nat) (v : α)
+    (h1 : parseNum .network 4 bs = .ok (plen, 4)) (hle : plen ≤ (bs.drop 4).length)
+    (h2 : parseNum .network 1 (bs.drop 4) = .ok (pad, 1)) (hpad : pad + 1 ≤ plen)
+    (h3 : parsePayload m ((bs.drop 5).take (plen - pad - 1)) = .ok v) :
+    (recordCodec m).parse bs = .ok (v, 4 + plen) := by
+  simp only [recordCodec, h1, bind, Except.bind]
+  have hX : ¬ (plen > (bs.drop 4).length) := by omega
+  simp only [hX, if_false, h2, List.drop_drop]
+  have hY : ¬ (plen < pad + 1) := by omega
+  simp only [hY, if_false]
+  have hle1 : plen - pad - 1 ≤ (bs.drop (4 + 1)).length := by
+    simp only [List.length_drop] at hle ⊢; omega
+  rw [parseRaw_nat_ok _ _ hle1]
+  simp only [h3]
+  have hle2 : pad ≤ (bs.drop (4 + 1 + (plen - pad - 1))).length := by
+    simp only [List.length_drop] at hle ⊢; omega
+  rw [parseRaw_nat_ok _ _ hle2]
+  simp only [pure, Except.pure, Except.ok.injEq, Prod.mk.injEq, true_and]
+  omega
 
 theorem record_roundTrip {α : Type} {m : Codec α} {wf : α → Prop} (hm : RoundTrip m wf) :
     RoundTrip (recordCodec m) (fun v => wf v ∧ ∀ b, m.compose v = .ok b → b.length + 12 < 2 ^ 32) := by
@@ -166,23 +246,32 @@ theorem record_roundTrip {α : Type} {m : Codec α} {wf : α → Prop} (hm : Rou
   have e : encNat .network 4 (payload.length + p + 1) ++ encNat .network 1 p ++ payload ++ List.replicate p 0 ++ s =
       encNat .network 4 (payload.length + p + 1) ++ (encNat .network 1 p ++ (payload ++ (List.replicate p 0 ++ s))) := by
     simp only [List.append_assoc]
-  simp only [recordCodec]
-  rw [e, parseNum_enc vs4 h1]
-  simp only [bind, Except.bind]
-  rw [List.drop_left' (encNat_length _ _ _)]
-  have hX : ¬ (payload.length + p + 1 >
-      (encNat ByteOrder.network 1 p ++ (payload ++ (List.replicate p 0 ++ s))).length) := by
-    simp only [List.length_append, encNat_length, List.length_replicate]; omega
-  simp only [hX, if_false]
-  rw [parseNum_enc vs1 h2]
-  simp only []
-  rw [List.drop_left' (encNat_length _ _ _), hp]
-  simp only []
-  rw [List.drop_left]
-  have hr := parseRaw_nat_append (List.replicate p (0 : UInt8)) s
-  simp only [List.length_replicate] at hr
-  rw [hr]
-  simp only [pure, Except.pure, List.length_append, encNat_length, List.length_replicate]
+  rw [e]
+  have hd4 : (encNat ByteOrder.network 4 (payload.length + p + 1) ++
+      (encNat ByteOrder.network 1 p ++ (payload ++ (List.replicate p 0 ++ s)))).drop 4 =
+      encNat ByteOrder.network 1 p ++ (payload ++ (List.replicate p 0 ++ s)) := List.drop_left' (encNat_length _ _ _)
+  have hd5 : (encNat ByteOrder.network 4 (payload.length + p + 1) ++
+      (encNat ByteOrder.network 1 p ++ (payload ++ (List.replicate p 0 ++ s)))).drop 5 =
+      payload ++ (List.replicate p 0 ++ s) := by
+    have : (5 : Nat) = 4 + 1 := rfl
+    rw [this, ← List.drop_drop, hd4]
+    exact List.drop_left' (encNat_length _ _ _)
+  have hres := record_parse_of_parts (m := m) _ (payload.length + p + 1) p v (parseNum_enc vs4 h1 _)
+    (by rw [hd4]; simp only [List.length_append, encNat_length, List.length_replicate]; omega)
+    (by rw [hd4]; exact parseNum_enc vs1 h2 _) (by omega)
+    (by
+      rw [hd5]
+      have : payload.length + p + 1 - p - 1 = payload.length := by omega
+      rw [this, List.take_left' rfl]
+      unfold parsePayload
+      have := hp []
+      rw [List.append_nil] at this
+      rw [this]
+      simp)
+  rw [hres]
+  simp only [List.length_append, encNat_length, List.length_replicate]
+  congr 2
+  omega
 
 /-- every proper prefix of a composed packet is rejected as not enough data, with a missing count
 between 1 and what is really missing — whatever the message codec is (only its composed length
@@ -231,57 +320,39 @@ theorem record_prefixReject {α : Type} (m : Codec α) :
       congr 2
       omega
 
-theorem parseNum_val {bo : ByteOrder} {k : Nat} {b : Bytes} {v n : Nat} (h : parseNum bo k b = .ok (v, n)) :
-    v = decNat bo (b.take k) := by
-  unfold parseNum at h
-  split at h
-  · simp at h
-  · split at h
-    · simp at h
-    · simp at h; exact h.1.symm
-
-/-- the declared `packet_length` of a buffer -/
-def declaredLength (b : Bytes) : Nat := beVal (b.take 4)
-
-/-- What self-delimitation of the packet needs: a self-delimiting message codec AND a packet whose
-consumed length reaches the declared one (`n ≥ 4 + packet_length`).  Both can fail in the code: the
-message parser is not confined to the packet. -/
-theorem record_selfDelim_partial {α : Type} {m : Codec α} (hs : SelfDelim m) (hl : LenBound m)
-    (b : Bytes) (v : α) (n : Nat) (h : (recordCodec m).parse b = .ok (v, n))
-    (hdecl : 4 + declaredLength b ≤ n) (s : Bytes) :
-    (recordCodec m).parse (b.take n ++ s) = .ok (v, n) := by
-  obtain ⟨plen, pad, k, h1, hle, h2, h3, h4, hn⟩ := record_parse_ok_inv h
-  have hnb := record_lenBound hl _ _ _ h
+/-- the packet is self-delimiting, for EVERY message codec: the result depends only on the
+`4 + packet_length` consumed bytes (true since the repair: the message parser is confined to the
+payload slice) -/
+theorem record_selfDelim {α : Type} (m : Codec α) : SelfDelim (recordCodec m) := by
+  intro b v n h s
+  obtain ⟨plen, pad, h1, hle, h2, hpad, h3, hn⟩ := record_parse_ok_inv h
   obtain ⟨_, hb4, hplen, henc4, _⟩ := parseNum_ok_inv h1
-  obtain ⟨_, hb1, hpad, henc1, _⟩ := parseNum_ok_inv h2
-  have hk := hl _ _ _ h3
-  have hpv : plen = declaredLength b := parseNum_val h1
-  simp only [List.length_drop] at hb1 hk h4 hle
-  have hsplit : b.take n = b.take 4 ++ ((b.drop 4).take 1 ++ ((b.drop 5).take k ++ (b.drop (5 + k)).take pad)) := by
-    have e1 : n = 4 + (1 + (k + pad)) := by omega
-    rw [e1, List.take_add, List.take_add, List.take_add, List.drop_drop, List.drop_drop]
-  simp only [recordCodec]
+  obtain ⟨_, hb1, hpadlt, henc1, _⟩ := parseNum_ok_inv h2
+  simp only [List.length_drop] at hle hb1
+  subst hn
+  have hsplit : b.take (4 + plen) = b.take 4 ++ ((b.drop 4).take 1 ++ (b.drop 5).take (plen - 1)) := by
+    have e1 : 4 + plen = 4 + (1 + (plen - 1)) := by omega
+    rw [e1, List.take_add, List.take_add, List.drop_drop]
   rw [hsplit, ← henc4, ← henc1]
   simp only [List.append_assoc]
-  rw [parseNum_enc vs4 hplen]
-  simp only [bind, Except.bind]
-  rw [List.drop_left' (encNat_length _ _ _)]
-  have hlenX : ((b.drop (5 + k)).take pad).length = pad := by
+  have hlenP : ((b.drop 5).take (plen - 1)).length = plen - 1 := by
     simp only [List.length_take, List.length_drop]; omega
-  have hlenK : ((b.drop 5).take k).length = k := by
-    simp only [List.length_take, List.length_drop]; omega
-  have hX : ¬ (plen > (encNat ByteOrder.network 1 pad ++ (List.take k (List.drop 5 b) ++
-      (List.take pad (List.drop (5 + k) b) ++ s))).length) := by
-    simp only [List.length_append, encNat_length, hlenX, hlenK]; omega
-  simp only [hX, if_false]
-  rw [parseNum_enc vs1 hpad]
-  simp only []
-  rw [List.drop_left' (encNat_length _ _ _), hs _ _ _ h3]
-  simp only []
-  rw [List.drop_left' hlenK]
-  have hr := parseRaw_nat_append ((b.drop (5 + k)).take pad) s
-  rw [hlenX] at hr
-  rw [hr]
-  simp [pure, Except.pure, hn]
+  have hd4 : (encNat ByteOrder.network 4 plen ++ (encNat ByteOrder.network 1 pad ++ ((b.drop 5).take (plen - 1) ++ s))).drop 4 =
+      encNat ByteOrder.network 1 pad ++ ((b.drop 5).take (plen - 1) ++ s) := List.drop_left' (encNat_length _ _ _)
+  have hd5 : (encNat ByteOrder.network 4 plen ++ (encNat ByteOrder.network 1 pad ++ ((b.drop 5).take (plen - 1) ++ s))).drop 5 =
+      (b.drop 5).take (plen - 1) ++ s := by
+    have : (5 : Nat) = 4 + 1 := rfl
+    rw [this, ← List.drop_drop, hd4]
+    exact List.drop_left' (encNat_length _ _ _)
+  refine record_parse_of_parts (m := m) _ plen pad v (parseNum_enc vs4 hplen _)
+    (by rw [hd4]; simp only [List.length_append, encNat_length, hlenP]; omega)
+    (by rw [hd4]; exact parseNum_enc vs1 hpadlt _) hpad ?_
+  rw [hd5]
+  have : ((b.drop 5).take (plen - 1) ++ s).take (plen - pad - 1) = (b.drop 5).take (plen - pad - 1) := by
+    rw [List.take_append_of_le_length (by rw [hlenP]; omega), List.take_take]
+    congr 1
+    omega
+  rw [this]
+  exact h3
 
 end Cp.Ssh
